@@ -183,8 +183,9 @@ pub struct Params {
 pub trait Runner {
     /// honest proof of the case
     fn prove(&self, case: &Case) -> Result<Proof, String>;
-    /// verify with variant "optset" | "conj" | "proven" (acceptable options)
-    fn verify(&self, case: &Case, proof: Proof, variant: &str) -> Out3;
+    /// verify with variant "optset" | "conj" | "proven" (acceptable options); `pub_delta` is added to the
+    /// first public value (0 = the honest public inputs)
+    fn verify(&self, case: &Case, proof: Proof, variant: &str, pub_delta: u32) -> Out3;
     fn params(&self, case: &Case) -> Params;
     fn parsed(&self, case: &Case, proof: &Proof) -> Parsed;
     fn field_map(&self, case: &Case, proof: &Proof) -> Vec<Value>;
@@ -522,9 +523,12 @@ where
         }
     }
 
-    fn verify(&self, case: &Case, proof: Proof, variant: &str) -> Out3 {
+    fn verify(&self, case: &Case, proof: Proof, variant: &str, pub_delta: u32) -> Out3 {
         let desc = Arc::new(case.desc.clone());
-        let (_, vals) = honest_values::<B>(&desc);
+        let (_, mut vals) = honest_values::<B>(&desc);
+        if pub_delta != 0 && !vals.is_empty() {
+            vals[0] += B::from(pub_delta);
+        }
         let pub_inputs = WirePub { desc, values: vals };
         let acceptable = match variant {
             "optset" => AcceptableOptions::OptionSet(vec![case.opts.build()]),
@@ -644,9 +648,9 @@ pub fn gen_main(args: &[String]) -> i32 {
                     }
                 },
             };
-            let v_orig = r.verify(&case, proof.clone(), "optset").json();
+            let v_orig = r.verify(&case, proof.clone(), "optset", 0).json();
             let v_dec = match decoded {
-                Some(d) => r.verify(&case, d, "optset").json(),
+                Some(d) => r.verify(&case, d, "optset", 0).json(),
                 None => json!(["none", ""]),
             };
             json!({"i": i, "ok": true, "hex": hex(&bytes), "len": bytes.len(), "map": map,
